@@ -43,6 +43,7 @@ type c34Case struct {
 	Refresh        string     `json:"refresh,omitempty"`
 	ReuploadHashes bool       `json:"reupload_returns_hashes,omitempty"`
 	TilingArm      bool       `json:"tiling_arm,omitempty"`
+	PlanFallback   bool       `json:"plan_fallback_arm,omitempty"`
 }
 
 var c34Strategies = []string{
@@ -71,7 +72,7 @@ var c34Parts = []int{4096, 8192, 16384, 32768, 36864, 65536, 102400, 131072, 196
 
 var c34EventKinds = []string{
 	"token-invalid", "token-invalid", "reupload", "fingerprint-provider", "fingerprint-cdn", "cdn-timeout",
-	"hash-token-invalid", "hash-timeout", "late-redirect",
+	"hash-token-invalid", "hash-timeout", "late-redirect", "request-token-invalid",
 }
 
 func c34PoolSizes(quick bool) []int {
@@ -125,6 +126,39 @@ func genC34Case(c *mon.Ctx, i int, pool []*cdnFile, adversarial bool) c34Case {
 	nChunks := size/cs.Part + 1
 	if !adversarial {
 		cs.Strategy = "honest"
+		if r.IntN(4) == 0 {
+			// plan-fallback sub-arm: a part whose CDN request plan has several
+			// requests, the token dies on a LATER request of such a plan and the
+			// master then serves the file itself instead of redirecting again
+			cs.Mode = "inline"
+			cs.Part = []int{36864, 102400, 102400, 196608, 196608, 393216, 786432}[r.IntN(7)]
+			planLen := map[int]int{36864: 2, 102400: 3, 196608: 2, 393216: 2, 786432: 2}[cs.Part]
+			for tries := 0; tries < 200; tries++ { // a file with at least one complete part, as small as possible
+				cs.File = r.IntN(len(pool))
+				n := len(pool[cs.File].f.data)
+				if n > cs.Part && (n < 3*cs.Part+200000 || tries > 100) {
+					break
+				}
+			}
+			size = len(pool[cs.File].f.data)
+			cs.Size = size
+			if r.IntN(2) == 0 {
+				cs.Way, cs.Threads = "stream", 1
+			} else {
+				cs.Way, cs.Threads = "parallel", 1+r.IntN(2)
+			}
+			full := size / cs.Part
+			if full < 1 {
+				full = 1
+			}
+			// fires on the request with ordinal At-1: request k>=1 of the plan of part j
+			at := r.IntN(full)*planLen + 1 + r.IntN(planLen-1) + 1
+			kind := []string{"token-invalid", "request-token-invalid"}[r.IntN(2)]
+			cs.Events = []c34Event{{Kind: kind, At: at}}
+			cs.Refresh = []string{"fallback-master", "fallback-master", "new-token"}[r.IntN(3)]
+			cs.PlanFallback = true
+			return cs
+		}
 		if r.IntN(3) == 0 && cs.Mode != "verify-master" {
 			// deterministic request sequence: single thread, no nested window loads
 			cs.TilingArm = true
@@ -211,7 +245,7 @@ func runC34(c *mon.Ctx) {
 		"the same per-request rules on every request the harness CDN receives, and exact tiling on single-thread runs whose request sequence is determined. " +
 		"download arm: genuine pool files (14 sizes 0..1.2 MB, thorough 30 sizes ..4 MiB; files above 150 KB drawn at 1/4, above 512 KiB at 1/24 of the rate: bytes are what costs under the race detector) with hash windows (uniform 128K / uniform small / random 4K..128K / chunk-aligned; nominal or actual tail limit; 1..64 hashes per answer; empty or repeated answer past EOF), " +
 		"modes inline (AllowCDN default), verify-cdn (WithVerify(true) on a redirected file) and verify-master (WithVerify(true), no CDN), Stream/Parallel 1..4 threads, part sizes 4K..1M incl. non-divisors of 1 MiB; " +
-		"CDN ciphertext from the reference AES-CTR model; honest arm with token-invalid (new token / new key / fallback to master), reupload-needed, fingerprint errors, timeouts, late redirect; " +
+		"CDN ciphertext from the reference AES-CTR model; honest arm with FILE_TOKEN_INVALID / REQUEST_TOKEN_INVALID (new token / new key / fallback to master; a sub-arm kills the token on a later request of a multi-request CDN plan for parts 36K,100K,192K,384K,768K), reupload-needed, fingerprint errors, timeouts, late redirect; " +
 		"adversarial arm: 16 strategies (bit flips, window swaps, data of another offset, truncation mid-window / on 4 KiB / exactly on a hash-window boundary, empty, consistent EOF lie, extension, other self-consistent file), each aimed at each chunk index. " +
 		"Oracle: a download that returns nil delivered exactly the genuine file. distinct non-trivial = (mode, way, strategy, outcome, target-chunk class) of a case in which the harness actually delivered a corrupted answer, plus (mode, way, event set) of honest cases")
 	c.Assume("CDN encryption per https://core.telegram.org/cdn#decrypting-files (as cited by cdn_verify.go): AES-256-CTR, IV = encryption_iv with the last 4 bytes replaced by offset/16 big-endian; transcribed positionally in refmodel.CDNKeystreamXOR (network access to re-read the page is not available)")
@@ -549,6 +583,10 @@ func runC34Case(c *mon.Ctx, cs *c34Case, cf *cdnFile, st *c34Stats, sc *scratch)
 				ev = append(ev, k)
 			}
 			sortStrings(ev)
+			if cs.PlanFallback {
+				ev = append(ev, fmt.Sprintf("plan-fallback/part%d/%s", cs.Part, cs.Refresh))
+				c.Add("plan_fallback_downloads_ok", 1)
+			}
 			c.Distinct(strings.Join([]string{"honest", cs.Mode, cs.Way, cs.WinStyle, strings.Join(ev, "+")}, "/"))
 			c.Sample("honest/"+cs.Mode, cs)
 		} else {
